@@ -44,7 +44,11 @@ Ltac case_step :=
     end ].
 (* auth is a fixpoint on its fuel: a literal fuel lets the kernel unfold it when re-checking
    conversions at Qed (exponential); abstract the fuel first *)
-Ltac gen_fuel := repeat match goal with |- context [auth (S ?k)] => generalize (S k); intro end.
+Ltac gen_fuel :=
+  repeat match goal with
+         | |- context [auth (S ?k)] =>
+             let F := fresh "fuel" in pose (F := S k); change (auth (S k)) with (auth F); clearbody F
+         end.
 Ltac cases := gen_fuel; cbv zeta; repeat case_step.
 
 (* Results of pair-valued model functions are named (with the defining equation put back in the
